@@ -249,21 +249,22 @@ theorem held_flushLoop (f : Nat) (c : Conn) (s sid : Nat) (w : Int) (sent : Bool
       | cons ch rest =>
         simp only []
         -- the chunk (or its head) that goes out now, and what stays
-        by_cases hbig : (ch.data.length : Int) > w
+        by_cases hbig : (ch.data.length : Int) > min w (c.mfs : Int)
         · simp only [hbig, if_true]
           rw [ih]
-          have r := held_rawSend c s sid (ch.data.take w.toNat) false
+          generalize (min w (c.mfs : Int)).toNat = n
+          have r := held_rawSend c s sid (ch.data.take n) false
           unfold Conn.held Conn.bufBytes
           simp only [List.isEmpty_cons, Bool.false_eq_true, if_false]
           rw [buf_aset, r.2]
-          have hout : ({ (c.rawSend s (ch.data.take w.toNat) false) with
-              bufs := aset s (⟨ch.data.drop w.toNat, ch.fin⟩ :: rest) (c.rawSend s (ch.data.take w.toNat) false).bufs } : Conn).out
-              = (c.rawSend s (ch.data.take w.toNat) false).out := rfl
+          have hout : ({ (c.rawSend s (ch.data.take n) false) with
+              bufs := aset s (⟨ch.data.drop n, ch.fin⟩ :: rest) (c.rawSend s (ch.data.take n) false).bufs } : Conn).out
+              = (c.rawSend s (ch.data.take n) false).out := rfl
           rw [hout, r.1]
           by_cases h : s = sid
           · subst h
             simp only [if_true, hb, chunkBytes, List.flatMap_cons]
-            rw [List.append_assoc, ← List.append_assoc (ch.data.take w.toNat), List.take_append_drop]
+            rw [List.append_assoc, ← List.append_assoc (ch.data.take n), List.take_append_drop]
           · simp [h]
         · simp only [hbig, if_false]
           rw [ih]
